@@ -4,8 +4,9 @@ C12 — converting through another format never silently changes a number.
 The property quantifies over a finite matrix (exporter x core feature); Gen/AdapterMatrix.lean is that matrix as
 observed on the CURRENT sources: for each cell the harness exports a layer with the feature, parses the result with
 the same adapter, executes the surviving metric on DuckDB against both graphs and classifies the cell.
-A metric may be absent after the round trip, or the format may reject the model; it must never survive and compute
-different values (`changed`), and a second round trip must be a fixed point.  The cells that violate this today are
+A metric may be absent after the round trip, the format may reject the model, or a key / relationship / dimension
+attribute may fall back to its default where the format has no syntax for it (`lost`); nothing may survive and compute
+different values or carry a different non-default definition (`changed`), and a second round trip must be a fixed point.  The cells that violate this today are
 listed in known_findings.json (F36-*) and copied into `Gen.knownCells`; every OTHER cell is proved clean here.
 -/
 import SideVerif.Gen.AdapterMatrix
@@ -20,8 +21,9 @@ theorem C12_no_silent_change : ∀ c ∈ adapterMatrix, c.outcome = .changed →
 /-- outside the recorded findings a second round trip is a fixed point of the first -/
 theorem C12_second_roundtrip_fixed : ∀ c ∈ adapterMatrix, c.fixedPoint = false → c.known = true := by decide +kernel
 
-/-- the matrix is the whole domain: 14 exporters x 52 measure cells -/
-theorem C12_matrix_complete : adapterMatrix.length = 14 * 52 := by decide +kernel
+/-- the matrix is the whole domain: 14 exporters x (52 measure cells + 11 structure cells: keys, source, relationship
+types, dimension types / granularity, segment) -/
+theorem C12_matrix_complete : adapterMatrix.length = 14 * (52 + 11) := by decide +kernel
 
 /-- the recorded findings are not stale: each listed cell is still observed as changed or not a fixed point -/
 theorem C12_known_cells_still_fail :
